@@ -112,7 +112,65 @@ BAD_LOG = [r'ignoring forall', r'ignoring exists', r'no body for (function|calle
            r'Parse Error', r'does not have a contract']
 
 
+def symtab_check(ob: Ob, sc: Scratch) -> Result:
+    """Supporting static fact (C12/C03): which objects of static storage duration can be written at run time.  Every translation
+    unit named in ob.extra_srcs is compiled with goto-cc from the woven tree and its symbol table inspected: an object with static
+    lifetime, defined in that file, whose type is not const-qualified must be listed in ob.defines['ALLOW'] (the guard map)."""
+    t0 = time.time()
+    res = Result(ob=ob, status='undecided')
+    allow = set(x for x in ob.defines.get('ALLOW', '').split(',') if x)
+    log, failed, seen = [], [], 0
+    for src in ob.extra_srcs:
+        wd = os.path.join(sc.dir, 'symtab_' + os.path.basename(src))
+        os.makedirs(wd, exist_ok=True)
+        gb = os.path.join(wd, 'o.gb')
+        cc = ['goto-cc', '-D' + GUARD, '-DPACKAGE_NAME="lbzip2"', '-DPACKAGE_VERSION="devel"', '-D_XOPEN_SOURCE=700', '-D_FILE_OFFSET_BITS=64', '-std=gnu99',
+              '-I', sc.dir, '-I', sc.src, '-I', os.path.join(VERIF, 'harness'), '-I', os.path.join(VERIF, 'contracts'), '-c', os.path.join(sc.dir, src), '-o', gb]
+        rc, out, _ = _run(cc, 300, 8)
+        log.append('$ ' + ' '.join(cc) + '\n' + out[-2000:])
+        if rc != 0:
+            res.reason = 'goto-cc failed on ' + src; res.log = '\n'.join(log); res.wall = time.time() - t0
+            return res
+        rc, out, _ = _run(['goto-instrument', '--show-symbol-table', '--json-ui', gb], 300, 8)
+        try:
+            js = json.loads(out)
+        except Exception:
+            res.reason = 'symbol table not JSON for ' + src; res.log = '\n'.join(log) + out[-1000:]; res.wall = time.time() - t0
+            return res
+        for item in js:
+            for name, sym in (item.get('symbolTable') or {}).items():
+                loc = sym.get('location') or {}
+                if not sym.get('isStaticLifetime') or sym.get('isType') or sym.get('isMacro') or sym.get('isExtern') or (sym.get('type') or {}).get('id') == 'code':
+                    continue
+                if os.path.basename(str(loc.get('file', ''))) != os.path.basename(src) or name.startswith('__CPROVER') or 'string_constant' in name or '$' in name:
+                    continue
+                seen += 1
+                tj = json.dumps(sym.get('type'))
+                is_const = '"#constant"' in tj
+                base = name.split('::')[-1]
+                res.samples.append(f'{os.path.basename(src)}:{loc.get("line")} {name} ' + ('const' if is_const else 'mutable'))
+                if not is_const and base not in allow and name not in allow:
+                    failed.append({'property': f'static_storage.{os.path.basename(src)}.{base}', 'status': 'FAILURE', 'file': str(loc.get('file')), 'line': loc.get('line'), 'trace': None,
+                                   'description': f'mutable object of static storage duration {name} ({os.path.basename(src)}:{loc.get("line")}) is shared by every thread and not in the guard map'})
+    res.n_props = seen
+    res.n_ok = seen - len(failed)
+    res.canaries = 1 if seen > 0 else 0
+    res.cmd = 'goto-cc -c <woven TU> && goto-instrument --show-symbol-table --json-ui   (for each of: ' + ', '.join(ob.extra_srcs) + ')'
+    res.log = '\n'.join(log)
+    res.samples = res.samples[:6]
+    res.wall = res.solver_time = time.time() - t0
+    if failed:
+        res.failed = failed; res.status = 'fail'; res.reason = '; '.join(f['description'] for f in failed[:3])
+    elif seen == 0:
+        res.status = 'vacuous'; res.reason = 'no static objects seen at all (symbol table scan broken?)'
+    else:
+        res.status = 'pass'
+    return res
+
+
 def build_and_check(ob: Ob, sc: Scratch, want_trace=False) -> Result:
+    if ob.harness == '__symtab__':
+        return symtab_check(ob, sc)
     t0 = time.time()
     wd = os.path.join(sc.dir, 'ob_' + re.sub(r'[^A-Za-z0-9_.-]', '_', ob.name))
     os.makedirs(wd, exist_ok=True)
